@@ -1142,7 +1142,7 @@ def coq_schema(ir, name, origin):
 
 AGREE = """(* GENERATED by tools/translate_schema.py — the obligations re-proved on every run against the
    schemas regenerated from /repo's current .proto files, ommx.v1.rs and *_pb2.py. *)
-Require Import Ommx.Schema OmmxGen.SchemaProto OmmxGen.SchemaRust OmmxGen.SchemaPy.
+Require Import Ommx.Schema Ommx.Codec OmmxGen.SchemaProto OmmxGen.SchemaRust OmmxGen.SchemaPy.
 From Coq Require Import String List NArith ZArith.
 
 Lemma schema_rust_eqb : schema_eqb schema_rust schema_proto = true.
@@ -1157,6 +1157,10 @@ Proof.
 Qed.
 
 Theorem schema_wf : wf_schema schema_proto = true.
+Proof. vm_compute. reflexivity. Qed.
+
+(* every scalar kind the published schema uses is one the codec model implements *)
+Theorem schema_supported : codec_supports schema_proto = true.
 Proof. vm_compute. reflexivity. Qed.
 
 (* size of what was compared (non-vacuity of the obligations) *)
